@@ -3,10 +3,13 @@ import random
 
 from harness import coqfmt as cf
 from harness import graphs as gr
+from harness import cmd_suite as cs
 
 PROP = "C01"
 COQ = dict(imports=["Model.Plan", "Spec.C01"], in_ty="input01", out_ty="pres (list N)",
            corr="corr_C01", decide="check_C01", inclass="inclass_C01", model="model_C01")
+SUITES = {"cmd": cs.SUITE}
+cleanup = cs.cleanup
 THEOREMS = ["C01_plan_exact", "C01_total", "C01_model_holds", "C01_decider_sound", "C01_inclass", "C01_normalisation", "C01_upgrade_heads_applies_all"]
 TRUSTED = ["target strings (ids, partial ids, head(s), label@head, rev+N) are resolved by the real "
            "_parse_upgrade_target and handed to the model as revision ids: C01 is planner-after-resolution, "
@@ -78,6 +81,11 @@ def _coq_tgt(struct, g):
 
 
 def generate(tier, seed):
+    yield from cs.generate(True, tier, seed)      # whole commands, end to end (suite "cmd")
+    yield from _generate_plans(tier, seed)
+
+
+def _generate_plans(tier, seed):
     rnd = random.Random(seed * 1000003 + 1)
     for n in (1, 2, 3, 4):
         for g in gr.acyclic_graphs(n):
@@ -219,6 +227,8 @@ def _one(g, m, sd, S, t, st):
 
 
 def run_case(h):
+    if "cmd" in h:
+        return cs.run_cmd_case(h)
     if "e2e" in h:
         return _e2e(h)
     g = h["g"]
@@ -244,6 +254,8 @@ def classify(human, out):
 
 
 def canary(human, rec):
+    if "cmd" in human:
+        return cs.canary(human, rec)
     """corrupted plans the decider must reject: a revision dropped, a revision repeated, an error instead of a plan"""
     plan = rec["out"].get("plan")
     if not plan:
